@@ -178,6 +178,7 @@ int reb_binary_diff(char* buf1, size_t size1, char* buf2, size_t size2, char** b
                 pos2 = 64; // For next search
                 are_different = 1.;
                 if (output_option==0){
+                    field1.size = 0; // No payload follows.
                     reb_output_stream_write(bufp, &allocatedsize, sizep, &field1,sizeof(struct reb_binary_field));
                 }else if (output_option==1 || output_option==3){
                     const struct reb_binary_field_descriptor fd = reb_binary_field_descriptor_for_type(field1.type);
